@@ -43,12 +43,20 @@ pub fn check_pair(cx: &mut Ctx, t: i128, o: i32) {
     cx.eval(2);
     let r = guard(|| {
         let dt = off.to_datetime(ts);
-        let back = off.to_timestamp(dt).ok().map(|x| x.as_nanosecond());
-        (dt, back)
+        let backts = off.to_timestamp(dt).ok();
+        let back = backts.map(|x| x.as_nanosecond());
+        // the same instant must also be the same *value*: equal, same views
+        let same = backts.map(|x| (x == ts, x.as_second() == ts.as_second(), x.subsec_nanosecond() == ts.subsec_nanosecond(), x.cmp(&ts) == std::cmp::Ordering::Equal));
+        (dt, back, same)
     });
     match r {
         Err(p) => cx.violation(&format!("Offset::to_datetime/panic@{}", p.loc()), case, || format!("{:?}", exp), || p.what.clone()),
-        Ok((dt, back)) => {
+        Ok((dt, back, same)) => {
+            if let Some(sm) = same {
+                if back == Some(t) && sm != (true, true, true, true) {
+                    cx.violation("Offset::to_timestamp/denormalized-result", case, || "== original, same as_second/subsec_nanosecond".into(), || format!("(eq, as_second, subsec, cmp) = {:?}", sm));
+                }
+            }
             let valid = cal::valid(dt.year() as i64, dt.month() as i64, dt.day() as i64);
             if !valid || civ_of(dt) != exp {
                 cx.violation("Offset::to_datetime", case, || format!("{:?} {:?}", exp.ymd(), exp.hms()), || format!("{:?}", dt));
@@ -68,11 +76,15 @@ pub fn check_civil(cx: &mut Ctx, c: Civ, o: i32) {
     let t = c.to_ns() - o as i128 * NS;
     let exp = if (MIN_NS..=MAX_NS).contains(&t) { Some(t) } else { None };
     cx.eval(1);
-    match guard(|| off.to_timestamp(dt).ok().map(|x| x.as_nanosecond())) {
+    match guard(|| off.to_timestamp(dt).ok().map(|x| (x.as_nanosecond(), x.as_second(), x.subsec_nanosecond()))) {
         Err(p) => cx.violation(&format!("Offset::to_timestamp/panic@{}", p.loc()), case, || format!("{:?}", exp), || p.what.clone()),
         Ok(g) => {
-            if g != exp {
+            if g.map(|x| x.0) != exp {
                 cx.violation("Offset::to_timestamp/range-or-value", case, || format!("{:?}", exp), || format!("{:?}", g));
+            } else if let Some((n, sec, sub)) = g {
+                if sec as i128 != n / NS || sub as i128 != n % NS {
+                    cx.violation("Offset::to_timestamp/denormalized-result", case, || format!("second {} subsec {}", n / NS, n % NS), || format!("second {} subsec {}", sec, sub));
+                }
             }
         }
     }
@@ -99,6 +111,10 @@ pub fn check_views(cx: &mut Ctx, t: i128) {
                 }
             };
         }
+        // every way of building an instant must give the same *value*:
+        // (total, second, subsec) normalized, and equal to the reference
+        let canon = |x: Timestamp| (x.as_nanosecond(), x.as_second(), x.subsec_nanosecond());
+        let want = |total: i128| Some((total, (total / NS) as i64, (total % NS) as i32));
         eq!("as_nanosecond", t, ts.as_nanosecond());
         eq!("as_second", (t / NS) as i64, ts.as_second());
         eq!("as_millisecond", (t / 1_000_000) as i64, ts.as_millisecond());
@@ -106,22 +122,25 @@ pub fn check_views(cx: &mut Ctx, t: i128) {
         eq!("subsec_nanosecond", (t % NS) as i32, ts.subsec_nanosecond());
         eq!("subsec_microsecond", ((t % NS) / 1_000) as i32, ts.subsec_microsecond());
         eq!("subsec_millisecond", ((t % NS) / 1_000_000) as i32, ts.subsec_millisecond());
-        eq!("from_nanosecond", Some(t), Timestamp::from_nanosecond(t).ok().map(|x| x.as_nanosecond()));
+        eq!("from_nanosecond", want(t), Timestamp::from_nanosecond(t).ok().map(canon));
+        eq!("from_nanosecond/eq", Some(true), Timestamp::from_nanosecond(t).ok().map(|x| x == ts && x.cmp(&ts) == std::cmp::Ordering::Equal));
         let d = ts.as_duration();
         eq!("as_duration", t, d.as_nanos());
-        eq!("from_duration", Some(t), Timestamp::from_duration(d).ok().map(|x| x.as_nanosecond()));
+        eq!("from_duration", want(t), Timestamp::from_duration(d).ok().map(canon));
         eq!("from_duration(new)", Some(t), Timestamp::from_duration(SignedDuration::new((t / NS) as i64, (t % NS) as i32)).ok().map(|x| x.as_nanosecond()));
         // unit constructors on the truncated views
         let s = (t / NS) as i64;
-        eq!("from_second", Some(s as i128 * NS), Timestamp::from_second(s).ok().map(|x| x.as_nanosecond()));
+        eq!("from_second", want(s as i128 * NS), Timestamp::from_second(s).ok().map(canon));
         let ms = (t / 1_000_000) as i64;
-        eq!("from_millisecond", Some(ms as i128 * 1_000_000), Timestamp::from_millisecond(ms).ok().map(|x| x.as_nanosecond()));
+        eq!("from_millisecond", want(ms as i128 * 1_000_000), Timestamp::from_millisecond(ms).ok().map(canon));
+        eq!("from_millisecond/eq", Some(true), Timestamp::from_millisecond(ms).ok().map(|x| Some(x) == ts_from_ns(ms as i128 * 1_000_000)));
         let us = (t / 1_000) as i64;
-        eq!("from_microsecond", Some(us as i128 * 1_000), Timestamp::from_microsecond(us).ok().map(|x| x.as_nanosecond()));
+        eq!("from_microsecond", want(us as i128 * 1_000), Timestamp::from_microsecond(us).ok().map(canon));
+        eq!("from_microsecond/eq", Some(true), Timestamp::from_microsecond(us).ok().map(|x| Some(x) == ts_from_ns(us as i128 * 1_000)));
         // mixed-sign constructor inputs denoting the same integer
         let (s2, n2) = if t >= 0 { (s + 1, (t % NS) as i32 - 1_000_000_000) } else { (s - 1, (t % NS) as i32 + 1_000_000_000) };
         if (-999_999_999..=999_999_999).contains(&n2) && (TS_MIN..=TS_MAX).contains(&s2) {
-            eq!("new(mixed-sign)", Some(t), Timestamp::new(s2, n2).ok().map(|x| x.as_nanosecond()));
+            eq!("new(mixed-sign)", want(t), Timestamp::new(s2, n2).ok().map(canon));
         }
         eq!("signum", t.signum() as i8, ts.signum());
         bad
